@@ -409,6 +409,20 @@ def main():
         predirty, init = L.gen_init(ctx.rand("c11", "init", i), i)
         cases.append({"seq": i, "len": nops, "predirty": predirty, "init": init})
 
+    # scripted sequences (always present): an out-of-order file fails partway under --exec-order non-linear, tx-mode none
+    # -> a partial revision that is NOT the last one; it must stay pending (rejected by linear, skipped by linear-skip,
+    # resumed first by non-linear) and the rest of the file must be applied by the next non-linear run.
+    def ap(order, n=0, tx="none"):
+        return {"op": "apply", "n": n, "order": order, "baseline": None, "allow": False, "tx": tx}
+    init2 = [{"op": "add", "ver": "100", "ck": False, "inserts": 2, "fail_at": 0}, {"op": "add", "ver": "120", "ck": False, "inserts": 1, "fail_at": 0}]
+    ooo = {"op": "add", "ver": "110", "ck": False, "inserts": 3, "fail_at": 2}
+    top = {"op": "add", "ver": "130", "ck": False, "inserts": 1, "fail_at": 0}
+    fix = {"op": "fix", "ver": "110"}
+    for name, ops in (("inner-partial-resume", [ap("linear", tx="file"), ooo, ap("non-linear"), fix, ap("non-linear"), ap("linear")]),
+                      ("inner-partial-orders", [ap("linear"), ooo, ap("non-linear"), fix, ap("linear"), ap("linear-skip"), ap("non-linear"), ap("non-linear")]),
+                      ("inner-partial-count", [ap("linear"), ooo, ap("non-linear"), top, fix, ap("non-linear", n=1), ap("non-linear")])):
+        cases.append({"seq": name, "len": len(ops), "predirty": False, "init": init2, "ops": ops, "scripted": True})
+
     def work(cs):
         r = Runner(ctx, cs)
         why = r.run()
